@@ -836,7 +836,9 @@ fn fault_inputs(ctx: &Ctx, t: usize, k: u64, wp: WP) -> (TVal, Vec<u8>, Vec<refm
 fn c09_one(ctx: &Ctx, t: usize, k: u64, frag: &mut Frag) {
     let c = case();
     let o = ops_of(t);
-    let f_t = (4 * o.size_of).max(256);
+    // per input byte: a container count is at best checked against the bytes that remain, so a
+    // pre-sized container of the largest element type the corpus declares is proportionate
+    let f_t = (4 * c.ops.iter().map(|x| x.size_of).max().unwrap_or(64)).max(256);
     let mut ord: u64 = 0;
     for wp in SAFE_WP {
         let (x, base, faults) = fault_inputs(ctx, t, k, wp);
